@@ -22,6 +22,9 @@ func restoreIndex(rootGoitPath, path string, index *store.Index, tree *object.Tr
 
 	// get node
 	node, isNodeFound := object.GetNode(tree.Children, path)
+	if isNodeFound && len(node.Children) != 0 { // directory node is not a file
+		isNodeFound = false
+	}
 
 	// if the path is registered in the Index
 	if isEntryFound {
